@@ -49,6 +49,24 @@ fn default_none<T>() -> Option<T> {
     None
 }
 
+// `export:` entries are either `VAR` or a map with exactly one `VAR: value` pair
+fn deserialize_export<'de, D>(deserializer: D) -> Result<Option<Vec<StringOrMapString>>, D::Error>
+where
+    D: Deserializer<'de>,
+{
+    let export: Option<Vec<StringOrMapString>> = Deserialize::deserialize(deserializer)?;
+    for entry in export.iter().flatten() {
+        if let StringOrMapString::Map(map) = entry {
+            if map.len() != 1 {
+                return Err(serde::de::Error::custom(
+                    "export entries must be `VAR` or a single `VAR: value` pair",
+                ));
+            }
+        }
+    }
+    Ok(export)
+}
+
 fn deserialize_version_checked<'de, D>(deserializer: D) -> Result<Option<Version>, D::Error>
 where
     //    T: Deserialize<'de>,
@@ -228,6 +246,7 @@ pub struct YamlRule {
     pub rspfile_content: Option<String>,
     pub pool: Option<String>,
     pub description: Option<String>,
+    #[serde(default = "default_none", deserialize_with = "deserialize_export")]
     pub export: Option<Vec<StringOrMapString>>,
 
     #[serde(default = "default_as_false")]
@@ -273,6 +292,7 @@ pub struct YamlTask {
     pub help: Option<String>,
     pub required_vars: Option<Vec<String>>,
     pub required_modules: Option<Vec<String>>,
+    #[serde(default = "default_none", deserialize_with = "deserialize_export")]
     pub export: Option<Vec<StringOrMapString>>,
     #[serde(default = "default_as_true")]
     pub build: bool,
